@@ -74,7 +74,7 @@ def handle : List String → String
     `vone pass gc=<n> tail=<0|1> <directory> files=<file>{|<file>}`
     * `<directory>` as for `vfy pass` (Blue.Driver.C08), digests in full (64 hex digits), `vO` a digest;
     * `gc=<n>`: the store's policy `versions = n`; `tail=1`: the code under test compares the inputs
-      left after the last output with the collector (fixes/c04-verify-gc-tail.diff);
+      left after the last output with the collector (a variant tried in a scratch copy, not in /repo);
     * `<file>` ::= `<digest>:<entry>{,<entry>}`, `<entry>` ::= `<key hex>@<ts>=<value hex>#<item digest>`
       or `<key hex>@<ts>!#<item digest>` (a tombstone): what `get_cursor(digest)` shows, each entry
       with the setsum the real `sst::Setsum` gives it alone (the model's `h`).
